@@ -17,6 +17,7 @@
   nesting depth below the recursion limit.
 -/
 import GdModel.Scope.Lemmas
+import GdModel.Scope.AliasLemmas
 namespace GdModel.Props.C09
 open GdModel.Scope GdModel.Scope.Spec
 
@@ -317,6 +318,20 @@ theorem reaches_chase (tab : Table) (i j : Nat) (h : Reaches tab i j) :
     obtain ⟨g, rfl⟩ : ∃ g, f = g + 1 := ⟨f - 1, by omega⟩
     simp only [Spec.chase, ha, Bool.not_true, Bool.false_eq_true, if_false, hn]
     exact hf g (by omega)
+
+open GdModel.Scope.Alias in
+/-- **The alias resolver never records a wrong target.**  For every table —
+    any order, chains, loops, dangling entries — an ultimate target stored by the
+    C-shaped `_GD_UpdateAliases` model is the real field its chain leads to. -/
+theorem resolver_sound (tab : Table) (i j : Nat)
+    (h : getO (Impl.update tab).ult i = some j) : Reaches tab i j :=
+  update_sound tab i j h
+
+open GdModel.Scope.Alias in
+/-- hence it agrees with the specification function wherever it records a target -/
+theorem resolver_agrees_with_chase (tab : Table) (i j : Nat)
+    (h : getO (Impl.update tab).ult i = some j) : ∃ fuel, ∀ f ≥ fuel, Spec.chase tab f i = some j :=
+  reaches_chase tab i j (update_sound tab i j h)
 
 /-- the defect repaired in parse.c (loop not through the first alias): the
     repaired walk ends with no target on a -> b -> c -> b, as the specification says -/
